@@ -9,6 +9,7 @@ import numpy as np
 import z3
 
 from .values import NDArr, Obj, new_array, to_z3, as_int_term, concrete_int
+from .symlist import SymList, SymDict
 
 MAXDIM = 12  # replayed arrays larger than this are not built (witness stays unreplayed)
 
@@ -343,6 +344,16 @@ def diff(real, spec, path="result"):
         if not np.array_equal(e, np.asarray(real, dtype=float)):
             return f"{path}: got {np.asarray(real).tolist()}, contract says {e.astype(int).tolist()}"
         return None
+    from .values import Opaque as _Opq
+
+    if isinstance(spec, _Opq) and isinstance(spec.payload, dict) and "n" in spec.payload and "adj" in spec.payload:
+        # abstract networkx graph: compare the real graph's adjacency matrix (node order 0..n-1) with the contract's
+        import networkx as nx
+
+        if not isinstance(real, nx.Graph):
+            return f"{path}: expected a networkx graph, got {type(real).__name__}"
+        return diff(nx.to_numpy_array(real, nodelist=sorted(real.nodes())), new_array((spec.payload["n"], spec.payload["n"]), spec.payload["adj"], "adj"),
+                    f"{path}.adjacency")
     if isinstance(spec, Obj):
         for f, v in spec.fields.items():
             if not hasattr(real, f):
@@ -351,6 +362,18 @@ def diff(real, spec, path="result"):
             if d:
                 return d
         return None
+    if isinstance(spec, SymDict):
+        n = concrete_int(spec.length)
+        if n is None:
+            return None
+        if not isinstance(real, dict):
+            return f"{path}: expected a dict"
+        return diff([[k, v] for k, v in real.items()], [[spec.key(z3.IntVal(k)), spec.val(z3.IntVal(k))] for k in range(n)], path)
+    if isinstance(spec, SymList):
+        n = concrete_int(spec.length)
+        if n is None:
+            return None  # unspecified length (spec did not evaluate)
+        return diff(list(real) if isinstance(real, (list, tuple)) else real, [spec.get(z3.IntVal(k)) for k in range(n)], path)
     if isinstance(spec, (list, tuple)):
         if not isinstance(real, (list, tuple)) or len(real) != len(spec):
             return f"{path}: expected a sequence of length {len(spec)}, got {real!r}"
